@@ -36,6 +36,9 @@ def E(kind, **p):
 MOTOR_A = dict(currents=False, J=(dy(3e-7), 'kgm^2'), w0=(1500.0, 'rad/s'), Tmax=(dy(0.01), 'Nm'))
 MOTOR_B = dict(currents=True, J=(dy(5e-7), 'kgm^2'), w0=(1000.0, 'rad/s'), Tmax=(dy(0.02), 'Nm'), i0=(0.25, 'A'), imax=(2.0, 'A'))
 
+# a motor whose no-load current is exactly zero (boundary value the constructor allows): no dead zone
+MOTOR_C = dict(currents=True, J=(dy(5e-7), 'kgm^2'), w0=(1000.0, 'rad/s'), Tmax=(dy(0.02), 'Nm'), i0=(0.0, 'A'), imax=(2.0, 'A'))
+
 TOPOLOGIES = {
     'T1': dict(motor=MOTOR_A, elements=[E('spur', n=10, J=1e-6), E('spur', n=40, J=4e-5)],
                links=[('joint',), ('mate', 0.9)]),
@@ -71,6 +74,9 @@ TOPOLOGIES = {
                                         E('worm', starts=1, J=1e-6, helix=10.0, pa=20.0),
                                         E('wheel', n=20, J=4e-5, helix=10.0, pa=20.0)],
                links=[('joint',), ('worm', 0.05), ('joint',), ('worm', 0.4)]),
+    # motor with no-load current 0 A driving a spur pair
+    'T12': dict(motor=MOTOR_C, elements=[E('spur', n=10, J=1e-6), E('spur', n=40, J=4e-5)],
+                links=[('joint',), ('mate', 0.9)]),
     # self-locking train driven by a motor WITHOUT current data
     'T11': dict(motor=MOTOR_A, elements=[E('worm', starts=1, J=1e-6, helix=10.0, pa=20.0),
                                          E('wheel', n=50, J=5e-5, helix=10.0, pa=20.0)],
